@@ -58,7 +58,7 @@ const srcAbs = "/w/src"
 func mt(sec int64, frac int64) (int64, int64) { return sec, frac }
 
 func genPackTree(rng *Rng, risky bool) (*TNode, bool, string) {
-	names := []string{"a", "b.txt", "c", "d", "sp ace", "-dash", ".hidden", "e.tf", "sub", "z", "..data", "...", "b\\c", "mod-a", "sub.tf"}
+	names := []string{"a", "b.txt", "c", "d", "sp ace", "-dash", ".hidden", "e.tf", "sub", "z", "..data", "...", "b\\c", "mod-a", "sub.tf", "n\nl"}
 	fracs := []int64{0, 400000000, 500000000, 600000000, 999999999, 1}
 	perms := []uint32{0o644, 0o600, 0o755, 0o444, 0o400, 0o777, 0o640, 0o000, 0o001}
 	hasOutLink := false
@@ -82,6 +82,9 @@ func genPackTree(rng *Rng, risky bool) (*TNode, bool, string) {
 					f.Data = ""
 				}
 				f.Mtime, f.MtimeN = 1400000000+int64(rng.Intn(100000)), fracs[rng.Intn(len(fracs))]
+				if rng.Chance(6) {
+					f.Mtime, f.MtimeN = 0, []int64{400000000, 1}[rng.Intn(2)] // rounds to the epoch itself: a time like any other
+				}
 				d.Kids[name] = f
 			case k < 13 && depth < 3:
 				d.Kids[name] = gen(depth + 1)
@@ -176,7 +179,7 @@ func genPackTree(rng *Rng, risky bool) (*TNode, bool, string) {
 		src.Kids[".terraformignore"].Mtime = 1400000001
 	}
 	if rng.Chance(20) {
-		src.Kids[".git"] = tdir(0o755, map[string]*TNode{"HEAD": tfile("ref", 0o644)})
+		src.Kids[".git"] = tdir(0o755, map[string]*TNode{"HEAD": tfile("ref", 0o644), "new\nline": tfile("nl", 0o644)})
 		src.Kids[".terraform"] = tdir(0o755, map[string]*TNode{"x": tfile("x", 0o644), "modules": tdir(0o755, map[string]*TNode{"m": tfile("m", 0o644)})})
 	}
 	outside := tdir(0o755, map[string]*TNode{
@@ -255,7 +258,7 @@ type spelling struct{ src, cwd string }
 var spellings = []spelling{
 	{"/w/src", "/"}, {"/w/src/", "/"}, {"w/src", "/"}, {"./w/src", "/"}, {"src", "/w"}, {".", "/w/src"}, {"../src", "/w/out"},
 	{"/w/./src", "/cwd2"}, {"/w/out/../src", "/w"}, {"/w//src", "/"},
-	{"/w/lnk", "/w"}, {"/w/lnk", "/"}, {"lnk", "/w"}, {"/cwd2/rl", "/cwd2"}, {"/cwd2/rl", "/"},
+	{"/w/lnk", "/w"}, {"/w/lnk", "/"}, {"lnk", "/w"}, {"/cwd2/rl", "/cwd2"}, {"/cwd2/rl", "/"}, {"/w/lnk/", "/w"}, {"/w/lnk/.", "/"}, {"lnk/", "/w"},
 	// from inside the directory that out-of-tree links point into: relative link texts must not be read from here
 	{"../src", "/w/outside"}, {"/w/src", "/w/outside"}, {"/w/src", "/w/outside/d"},
 	// through a parent directory that is a symbolic link
@@ -385,8 +388,17 @@ func runPackCase(c *PackCase, work string, rng *Rng, ignoreText string, hasOut b
 	reenters := false // some stored link leaves the source directory and re-enters it by name
 	ref := refParse(ignoreText)
 	useIgnore := c.Ignore || c.Legacy
+	// a source given as a symbolic link followed by a slash (or "/.") packs as an empty slug: the first Lstat follows
+	// the link, so it is not read, and the walk does not follow a root that is a link.  Another face of KF-C16-1
+	// (reported under C16 below); the oracles that presuppose that the source denotes the tree are skipped.
+	emptyViaLink := ok && len(es) == 0 && len(all) > 0 && (strings.Contains(c.Src, "lnk") || strings.Contains(c.Src, "rl")) &&
+		(strings.HasSuffix(c.Src, "/") || strings.HasSuffix(c.Src, "/."))
+	if emptyViaLink {
+		vs = append(vs, Violation{Property: "C16", Signatures: []string{"source_given_by_way_of_a_symlink"},
+			What: fmt.Sprintf("source %q (a symbolic link to the directory, with a trailing separator) packs as an empty slug", c.Src)})
+	}
 	// ---- C03 at Pack level: a file ships iff its own path is not excluded ----
-	if ok && ref.ok {
+	if ok && ref.ok && !emptyViaLink {
 		for _, p := range all {
 			if p.n.Kind == "fifo" {
 				continue
@@ -619,6 +631,8 @@ func runPackCase(c *PackCase, work string, rng *Rng, ignoreText string, hasOut b
 		r3, _ := runPackChild(c, R, spelling{c.Src, c.Cwd}, off)
 		if r3.Crashed == "" && !r3.Timeout && r3.Err == "" {
 			vs = append(vs, viol("C12", fmt.Sprintf("the output writer failed at byte %d of %d but Pack returned success", off, len(resp.Slug))))
+			// ... and the metadata it returned describes a slug that was never written (C20)
+			vs = append(vs, viol("C20", fmt.Sprintf("Pack returned metadata (%d files, %d bytes) and no error although the output writer failed at byte %d of %d: no such slug exists", len(r3.MetaFiles), r3.MetaSize, off, len(resp.Slug))))
 		}
 	}
 	return obs, vs
@@ -668,7 +682,7 @@ func compareRoundTrip(src *TNode, all []phys, got map[string]SnapEntry, useIgnor
 			if g.Data != n.Data || g.Perm != n.Perm {
 				vs = append(vs, viol("C02", fmt.Sprintf("file %q comes back with content %q perm %o, was %q perm %o", rel, g.Data, g.Perm, n.Data, n.Perm)))
 			}
-			if n.Mtime != 0 && g.MtimeS != round(n.Mtime, n.MtimeN) {
+			if (n.Mtime != 0 || n.MtimeN != 0) && g.MtimeS != round(n.Mtime, n.MtimeN) {
 				vs = append(vs, viol("C02", fmt.Sprintf("file %q comes back with mtime %d, was %d.%09d", rel, g.MtimeS, n.Mtime, n.MtimeN)))
 			}
 		case "dir":
@@ -760,7 +774,7 @@ func runPackStream(o *Opts) {
 		inTree := []string{"a", "sub/a", "./a", "nothing", "sub", "."}
 		outTree := []string{"%s..", "%s../src/..", "%s../src/a", "%s../src/sub", "%s../src-sib/secret", "%s../src-sib", "%s../outside/f", "%s../outside/d",
 			"/w/src/a", "/w/outside/d", "/w/outside/f", "/secret", "%s../outside/chain", "%s../outside/back", "%s../outside/backd", "%s../other/outside/f",
-			"%s../outside/hollow", "%s../oalias/f", "%s../../secret", "%s../outside/dl/../f"}
+			"%s../outside/hollow", "%s../oalias/f", "%s../../secret", "%s../outside/dl/../f", "%s../SRC/a", "%s../Outside/f"}
 		for depth := 0; depth < 2; depth++ {
 			up := strings.Repeat("../", depth)
 			var tmpl []string
@@ -779,8 +793,8 @@ func runPackStream(o *Opts) {
 			}
 			for ti, t := range tmpl {
 				for _, deref := range []bool{false, true} {
-					for _, allow := range [][]string{nil, {"/w/outside"}, {"../outside/f"}} {
-						if allow != nil && (ti < nIn || !strings.Contains(t, "outside")) {
+					for _, allow := range [][]string{nil, {"/w/outside"}, {"../outside/f"}, {"/w/OUTSIDE"}} {
+						if allow != nil && (ti < nIn || !strings.Contains(strings.ToLower(t), "outside")) {
 							continue
 						}
 						r := NewRng(11)
